@@ -42,9 +42,9 @@ def _returns(f):
 
 
 @rule('C17.a', min_instances=12)
-def success_only_at_fixed_point(ctx):
+def success_only_at_fixed_point(ctx, names=('and_', 'or_', 'not_')):
     """and_/or_/not_: a return through onexit is guarded by the combinator's fixed-point test and `e is None`; the final return goes through onfail; loops bounded; members called on copies"""
-    for name in ('and_', 'or_', 'not_'):
+    for name in names:
         f = _inner(ctx, name)
         rets = _returns(f)
         succ = [r for r in rets if 'onexit' in unparse(r.value)]
